@@ -69,6 +69,7 @@ class Context:
         self.stats = Stats()
         self.listeners = []
         self.format_forks = False
+        self.keep_symbolic = False          # C02: results are never folded to plain ints, so listeners see every value
         self.simplify_merge = True
         self.branch_timeout_ms = 20000
         self.max_index_values = 4096
@@ -142,7 +143,7 @@ def mk(t, lo, hi):
     """canonical constructor: returns an int when the interval is a point"""
     if lo > hi:
         raise Unsupported('empty interval')
-    if lo == hi:
+    if lo == hi and not ctx.keep_symbolic:
         return lo
     n = sbits(lo, hi)
     t = _ext(t, n)
@@ -516,7 +517,7 @@ class SymInt:
             lo, hi = -(1 << (w - 1)), (1 << (w - 1)) - 1
         ta2, tb2 = _terms(ta, tb, a, b, w)
         t = ta2 & tb2
-        if (ta is None or tb is None) and w <= 160:
+        if (ta is None or tb is None) and w <= 160 and not ctx.keep_symbolic:
             # masking with a constant is how fields are extracted: let z3 fold it (a field of a
             # partly concrete word often is a plain number)
             ts = z3.simplify(t)
@@ -643,7 +644,9 @@ class SymInt:
             return NotImplemented
         ta, tb, alo, ahi, blo, bhi, a, b = _pair(self, o)
         # decide by intervals when possible
-        if op == 'lt':
+        if ctx.keep_symbolic:
+            pass
+        elif op == 'lt':
             if ahi < blo: return True
             if alo >= bhi: return False
         elif op == 'le':
